@@ -35,6 +35,22 @@ pub fn conjuring_probes() -> Vec<(String, String, String)> {
             twin.clone(),
         ));
     }
+    // the slice constructors that duplicate their source bitwise must demand `Copy` elements: a copy
+    // of a value with a destructor is a value nobody constructed (and it is destructed as well)
+    {
+        let items = "thread_local! { static DROPS: std::cell::Cell<u32> = std::cell::Cell::new(0); }\nstruct Tk(u8);\nimpl Drop for Tk { fn drop(&mut self) { DROPS.with(|d| d.set(d.get() + 1)); } }\n";
+        let tail = "drop(src); }); if DROPS.with(|d| d.get()) > 2 { println!(\"SOME\"); } else { println!(\"NONE\"); }";
+        let mkc = |body: &str| format!("{PRELUDE}\n{items}\nfn main() {{ rootless_mutate(|mc| {{ let src = vec![Static(Tk(1)), Static(Tk(2))]; {body} {tail} }}\n");
+        let good = format!("{PRELUDE}\nfn main() {{ rootless_mutate(|mc| {{ let src = vec![1u8, 2]; let g = gc_arena::GcSliceWithHeaderBuilder::<u8, u8>::new(2).write_header(0).copy_slice(mc, &src); let h = gc_arena::GcSlice::new_slice(mc, &src); println!(\"SOME {{}} {{}}\", g.slice.len(), h.len()); }}); }}\n");
+        for (cls, body) in [
+            ("copy_slice of non-Copy elements through the slice-with-header builder", "let _g = gc_arena::GcSliceWithHeaderBuilder::<u8, Static<Tk>>::new(2).write_header(0).copy_slice(mc, &src);"),
+            ("copy_slice of non-Copy elements through the slice builder", "let _g = gc_arena::GcSliceBuilder::<Static<Tk>>::new(2).copy_slice(mc, &src);"),
+            ("GcSlice::new_slice of non-Copy elements", "let _g = gc_arena::GcSlice::new_slice(mc, &src);"),
+            ("GcSlice::new_slice_static of non-Copy elements", "let src2 = vec![Tk(1), Tk(2)]; let _g = gc_arena::GcSlice::new_slice_static(mc, &src2); drop(src2);"),
+        ] {
+            v.push((cls.to_string(), mkc(body), good.clone()));
+        }
+    }
     // the hidden helper behind `unsize!` turns any raw-pointer function into a pointer conversion: it
     // must stay uncallable without `unsafe`
     for (cls, body) in [
